@@ -856,6 +856,57 @@ def product_rows(repo):
     return rows, errors
 
 
+# ------------------------------------------------------------------------------------------------
+# random._randbelow: the restart after a public rejection (its uniformity is what _mod's row relies on)
+
+RANDBELOW_STMTS = ['x = runtime.random_bits(sectype, k)', 'h = 1', 'i = k', 't = (n & -n).bit_length()', 'i -= 1', 'h *= x[i]']
+
+
+def randbelow_restart(repo):
+    """(c, d) for the restart statement  x[i+c:] = runtime.random_bits(sectype, k - i - d)  of random._randbelow,
+    after checking the rest of the sampler statement by statement.  Raises Unclassified."""
+    tree = ast.parse(open(os.path.join(repo, MODULES['random'])).read())
+    fns = [f for f in ast.walk(tree) if isinstance(f, (ast.FunctionDef, ast.AsyncFunctionDef)) and f.name == '_randbelow']
+    if len(fns) != 1:
+        raise Unclassified('random._randbelow not found')
+    fn = fns[0]
+    stmts = stmts_with_cond(fn)
+    for tmpl in RANDBELOW_STMTS:
+        if not find_stmt(stmts, tmpl):
+            raise Unclassified('random._randbelow: statement not found: %s' % tmpl)
+    loops = [st for st, _ in stmts if isinstance(st, ast.While)]
+    if len(loops) != 1 or unp(loops[0].test) != 'i >= t':
+        raise Unclassified('random._randbelow: sampling loop is not `while i >= t`')
+    ifs = [st for st in loops[0].body if isinstance(st, ast.If)]
+    if len(ifs) != 1 or unp(ifs[0].test) != 'b >> i & 1' or len(ifs[0].orelse) != 1 or not isinstance(ifs[0].orelse[0], ast.If):
+        raise Unclassified('random._randbelow: loop body not understood')
+    rej = ifs[0].orelse[0]
+    if unp(rej.test) != 'await runtime.output(h * x[i])' or rej.orelse:
+        raise Unclassified('random._randbelow: rejection test is %s' % unp(rej.test))
+    body = [unp(st) for st in rej.body]
+    if len(body) != 2 or body[1] != 'i = k':
+        raise Unclassified('random._randbelow: restart branch is %r' % body)
+    st = rej.body[0]
+
+    def offset(e, base):
+        """e == base + c  ->  c"""
+        if unp(e) == base:
+            return 0
+        if isinstance(e, ast.BinOp) and isinstance(e.op, (ast.Add, ast.Sub)) and unp(e.left) == base and \
+                isinstance(e.right, ast.Constant) and isinstance(e.right.value, int):
+            return e.right.value if isinstance(e.op, ast.Add) else -e.right.value
+        raise Unclassified('random._randbelow: restart statement not understood: %s' % unp(st))
+    if not (isinstance(st, ast.Assign) and len(st.targets) == 1 and isinstance(st.targets[0], ast.Subscript)
+            and unp(st.targets[0].value) == 'x' and isinstance(st.targets[0].slice, ast.Slice)
+            and st.targets[0].slice.upper is None and st.targets[0].slice.step is None
+            and isinstance(st.value, ast.Call) and unp(st.value.func) == 'runtime.random_bits' and len(st.value.args) == 2
+            and unp(st.value.args[0]) == 'sectype'):
+        raise Unclassified('random._randbelow: restart statement not understood: %s' % unp(st))
+    c = offset(st.targets[0].slice.lower, 'i')
+    d = -offset(st.value.args[1], 'k - i')
+    return (c, d), unp(st)
+
+
 def coq_pident(site):
     return 'prow_' + ''.join(c if c.isalnum() else '_' for c in site)
 
@@ -864,7 +915,7 @@ def coq_ident(site):
     return 'row_' + ''.join(c if c.isalnum() else '_' for c in site)
 
 
-def emit(rows, errors, out, prows=()):
+def emit(rows, errors, out, prows=(), restart=None):
     L = ['(* GENERATED by harness/gen_mask_table.py from mpyc/runtime.py, random.py, statistics.py - do not edit *)',
          'From Coq Require Import ZArith List String.', 'Require Import MPyC.Stat.', 'Import ListNotations.',
          'Local Open Scope Z_scope.', 'Local Open Scope string_scope.', '']
@@ -887,6 +938,9 @@ def emit(rows, errors, out, prows=()):
         L.append('Definition %s : prow := MkPRow "%s" %s %s.' % (
             coq_pident(r['site']), r['site'], 'true' if r['product'] else 'false', r['rerand']))
     L.append('Definition product_rows : list prow := [%s].' % '; '.join(coq_pident(r['site']) for r in prows))
+    if restart is not None:
+        L.append('(* random._randbelow restart after a public rejection: %s *)' % restart[1].replace('*)', '* )'))
+        L.append('Definition randbelow_restart_src : Z * Z := ((%d), (%d)).' % restart[0])
     L.append('')
     L.append('(* translator errors: %d *)' % len(errors))
     for e in errors:
@@ -905,7 +959,13 @@ if __name__ == '__main__':
     rows, errors = generate(repo)
     prows, perrors = product_rows(repo)
     errors = errors + perrors
-    emit(rows, errors, out, prows)
+    try:
+        restart = randbelow_restart(repo)
+    except Unclassified as exc:
+        restart = None
+        errors.append({'site': 'random._randbelow', 'line': None, 'error': str(exc)})
+    emit(rows, errors, out, prows, restart)
+    print('RANDBELOW restart', restart)
     for r in prows:
         print('PRODUCT %-45s threshold=%-18s %-12s %s' % (r['site'], r['threshold'], r['rerand'], r['conditions']))
     for r in rows:
